@@ -38,7 +38,7 @@ Definition parse_uint (s : bytes) : option Z :=
   | [] => None
   | _ => if forallb is_digit s then (let v := digits_val 0 s in if v <? two64 then Some v else None) else None
   end.
-(* strconv.ParseInt(s, 10, 64) on a digit string (the regexp admits no sign) *)
+(* strconv.ParseInt(s, 10, 64) on a digit string (the regexp allows no sign) *)
 Definition parse_int63 (s : bytes) : option Z :=
   match s with
   | [] => None
